@@ -368,9 +368,9 @@ def run(chk) -> None:
     c08.check_format_detection(chk)  # "whether the atoms were supplied as PDB or as mmCIF": the file reaches the reader of its format
     for rule, n in (("pdb-slices-agree", 9), ("pdb-slices-v2", 15), ("connect-threshold", 2), ("chi-atoms", 2), ("prefer-auth", 6)):
         chk.floor(rule, n)
-    from sa import memoshare
+    from checks import w3cross
 
-    memoshare.check(chk, "C15")  # a memoised function must not hand one mutable object to every caller
+    w3cross.check(chk, "C15", untouched=())  # state that survives a call: shared memo results, module-level containers, arguments
 
 
 MANIFEST_ENTRY = {
